@@ -371,7 +371,7 @@ class EquationSolver(object):
                 # invalid data.
                 try:
                     new_value[var] = eval(eqn, globals(), initial)
-                except ZeroDivisionError as er:
+                except (ZeroDivisionError, OverflowError) as er:
                     # We can add new error types that we are willing to temporarily accept.
                     new_value[var] = initial[var]
                     had_evaluation_errors = True
@@ -431,7 +431,7 @@ class EquationSolver(object):
                     decoration_values.append((var, val))
                 except NameError:
                     failed.append((var, eqn))
-                except ZeroDivisionError as er:
+                except (ZeroDivisionError, OverflowError) as er:
                     raise ValueError('Error evaluating variable {0} = {1}'.format(var, str(er)))
             # If we failed on every single decoration variable, something is wrong.
             if len(failed) == len(vars_to_compute):
